@@ -78,6 +78,7 @@ class Dds:
         _FACTS[0] = facts
         self.tp_range = None
         self.sl_range = None
+        self.need_levels = False    # switched on by the rules that read the latched levels (C01, C03)
 
     def invariants(self, it):
         """type invariants of the parameter newtypes, computed from their own conversion functions"""
@@ -111,7 +112,10 @@ class Dds:
         def setf(n, v):
             pa.fields[pa.names.index(n)] = v
         st.ctx.ranges[pa.get('sample_rate_hz').term.as_single_atom()] = (Fr(fs_range[0]), Fr(fs_range[1]))
-        setf('rollover_mask', Num(Poly.const((1 << total) - 1), 'u32'))
+        # `rollover_mask` / `last_accumulator` are private bookkeeping the properties do not talk about: optional (a
+        # mask kept as an associated constant, a dropped write-only copy are the same accumulator)
+        if 'rollover_mask' in pa.names:
+            setf('rollover_mask', Num(Poly.const((1 << total) - 1), 'u32'))
         if acc == 'pair':
             I = st.ctx.sym_range(name + '.I', 0, (1 << index) - 1, integer=True)
             L = st.ctx.sym_range(name + '.L', 0, (1 << f) - 1, integer=True)
@@ -120,7 +124,8 @@ class Dds:
             setf('accumulator', Num(acc, 'u32'))
         else:
             st.ctx.ranges[pa.get('accumulator').term.as_single_atom()] = (Fr(0), Fr((1 << total) - 1))
-        st.ctx.ranges[pa.get('last_accumulator').term.as_single_atom()] = (Fr(0), Fr((1 << total) - 1))
+        if 'last_accumulator' in pa.names:
+            st.ctx.ranges[pa.get('last_accumulator').term.as_single_atom()] = (Fr(0), Fr((1 << total) - 1))
         if inc_range is not None:
             st.ctx.ranges[pa.get('increment').term.as_single_atom()] = (Fr(inc_range[0]), Fr(inc_range[1]))
         if rolled is not None:
@@ -136,7 +141,10 @@ class Dds:
         a.fields[a.names.index('phase_accumulator')] = pa
         a.fields[a.names.index('state')] = make_enum(self.facts, STATE, state)
         for n in ('value_when_gate_on_received', 'value_when_gate_off_received', 'value'):
-            st.ctx.ranges[a.get(n).term.as_single_atom()] = (Fr(0), Fr(1))
+            if n in a.names:
+                st.ctx.ranges[a.get(n).term.as_single_atom()] = (Fr(0), Fr(1))
+            elif self.need_levels:
+                raise InterpError('Adsr.%s (anchor of C01/C03: the latched start levels and the output) is missing: %s' % (n, a.names))
         return a
 
     def make_lfo(self, it, st, total, index, **kw):
@@ -441,6 +449,7 @@ def state_name(v):
 
 def check_gates(res, facts, prop):
     dds = Dds(facts)
+    dds.need_levels = prop in ('C01', 'C03')
     total, index = pa_instantiation(facts, ADSR)
     n = 0
     for meth, spec, latch in (('gate_on', GATE_ON_SPEC, 'value_when_gate_on_received'), ('gate_off', GATE_OFF_SPEC, 'value_when_gate_off_received')):
@@ -496,6 +505,7 @@ def inc_spec(total, period, fs):
 
 def check_tick(res, facts, prop):
     dds = Dds(facts)
+    dds.need_levels = prop in ('C01', 'C03')
     total, index = pa_instantiation(facts, ADSR)
     mask = (1 << total) - 1
     where = where_of(facts, ADSR + '::tick')
@@ -622,7 +632,7 @@ def check_pa_methods(res, facts, owner, prop):
     st2 = it.start(PAF + 'new', [fs], genv=dds.genv(total, index), state=st)
     for o in sem_iter(it.run(st2)):
         r = o.ret
-        ok = o.status == 'returned' and isinstance(r, StructV) and r.get('rollover_mask').term == Poly.const(mask) and r.get('accumulator').term == ZERO \
+        ok = o.status == 'returned' and isinstance(r, StructV) and ('rollover_mask' not in r.names or r.get('rollover_mask').term == Poly.const(mask)) and r.get('accumulator').term == ZERO \
             and r.get('increment').term == ZERO and bool_of(o.ctx, r.get('rolled_over')) is False and r.get('sample_rate_hz').term == fs.term
         res.ob('R-PHASE', inst0 + ' new()', ok, 'new() = %r' % (r,), where_of(facts, PAF + 'new'), key='R-PHASE:new:' + inst0)
         n += 1
